@@ -641,6 +641,21 @@ func run(k *kase) (impl, oracle, class string) {
 			oracle = fmt.Sprintf("no-report%s: %d honest members' valid shares reached the honest submitter (threshold %d) and nothing was reported", w.poison(), len(valid), g.t)
 		}
 	}
+	// liveness as the property states it, for EVERY selected submitter: a threshold of honest members that
+	// can compute the content is there, the member the randomness selects is one of the faulty ones, and nobody
+	// reports. Inherent in the protocol (the submitter is a function of the on-chain randomness only):
+	// KNOWN_FINDINGS.txt known: sig=no-report-byzantine-submitter; Props/C01.lean liveness_full_fails.
+	if oracle == "" && k.byz[w.sub] && total == 0 {
+		able := 0
+		for i := 0; i < k.n; i++ {
+			if !k.byz[i] && has(i) {
+				able++
+			}
+		}
+		if able >= g.t {
+			oracle = fmt.Sprintf("no-report-byzantine-submitter: %d honest members (threshold %d) computed and sent their shares, the selected submitter (member %d) is faulty and nothing is reported", able, g.t, w.sub)
+		}
+	}
 	for _, nd := range w.nodes {
 		if nd != nil {
 			nd.d.VerifCancel()
